@@ -350,6 +350,24 @@ fn decoded_filter(s: &str) -> Option<TopicFilter> {
     }
 }
 
+/// the comparison operators, `==` / `!=`, `max` / `min` and `eq` / `ne` as methods all follow from `cmp` — for two values
+/// built apart, for a value and its clone (one shared allocation) and for a value and itself
+#[allow(clippy::eq_op, clippy::nonminimal_bool, clippy::neg_cmp_op_on_partial_ord)]
+fn operators_follow_cmp(x: &TopicFilter, xs: &str, y: &TopicFilter, ys: &str, how: &str) -> Result<(), String> {
+    use std::cmp::Ordering::*;
+    let o = x.cmp(y);
+    let got = (x < y, x <= y, x > y, x >= y, x == y, x != y, x.lt(y), x.le(y), x.gt(y), x.ge(y), x.eq(y), x.ne(y));
+    let want = (o == Less, o != Greater, o == Greater, o != Less, o == Equal, o != Equal, o == Less, o != Greater, o == Greater, o != Less, o == Equal, o != Equal);
+    if got != want {
+        return Err(format!("{:?} against {:?} ({}): cmp says {:?} but (<, <=, >, >=, ==, !=, lt, le, gt, ge, eq, ne) = {:?}", xs, ys, how, o, got));
+    }
+    let (mx, mn) = (std::cmp::max(x, y), std::cmp::min(x, y));
+    if (o == Greater && (&**mx != xs || &**mn != ys)) || (o == Less && (&**mx != ys || &**mn != xs)) || (o == Equal && (&**mx != xs || &**mn != xs)) {
+        return Err(format!("max / min of {:?} and {:?} ({}) are {:?} / {:?} although cmp says {:?}", xs, ys, how, &**mx, &**mn, o));
+    }
+    Ok(())
+}
+
 pub fn check_relations(a: &str, b: &str, c: &str) -> Result<(), String> {
     let fa = TopicFilter::try_from(a.to_string()).map_err(|e| format!("{:?}", e))?;
     let fb = TopicFilter::try_from(b.to_string()).map_err(|e| format!("{:?}", e))?;
@@ -371,8 +389,16 @@ pub fn check_relations(a: &str, b: &str, c: &str) -> Result<(), String> {
             return Err(format!("filter {:?} built by {} reports share {:?} instead of {:?}", a, how, x.shared_info(), fa.shared_info()));
         }
     }
+    let fa_clone = fa.clone();
+    operators_follow_cmp(&fa, a, &fa_clone, a, "a value and its clone")?;
+    operators_follow_cmp(&fa_clone, a, &fa, a, "a clone and its original")?;
+    operators_follow_cmp(&fa, a, &fa, a, "a value and itself")?;
+    operators_follow_cmp(&fa, a, &fa2, a, "the same text from two allocations")?;
+    operators_follow_cmp(&fa3, a, &fa, a, "a decoded value and a constructed one")?;
     let pairs = [(&fa, a, &fb, b), (&fb, b, &fc, c), (&fa, a, &fc, c)];
     for (x, xs, y, ys) in pairs {
+        operators_follow_cmp(x, xs, y, ys, "two values built apart")?;
+        operators_follow_cmp(y, ys, x, xs, "two values built apart")?;
         let eq = x == y;
         if eq != (xs == ys) {
             return Err(format!("{:?} == {:?} is {} but the texts are {}", xs, ys, eq, if xs == ys { "equal" } else { "different" }));
